@@ -77,6 +77,24 @@ def parse_tla_value(s):
                 ws()
             pos += 1
             return items
+        if s[pos] == "(":
+            # function printed as (k1 :> v1 @@ k2 :> v2)
+            pos += 1
+            d = {}
+            ws()
+            while s[pos] != ")":
+                key = val()
+                ws()
+                assert s.startswith(":>", pos), s[pos:pos + 20]
+                pos += 2
+                v = val()
+                d[key if isinstance(key, (str, int)) else repr(key)] = v
+                ws()
+                if s.startswith("@@", pos):
+                    pos += 2
+                ws()
+            pos += 1
+            return d
         if s[pos] == "[":
             pos += 1
             d = {}
